@@ -322,8 +322,10 @@ func (cm *codecModel) describeByte(v ssa.Value, ex *explorer, st *pstate, fr *fr
 		break
 	}
 	if call, ok := v.(*ssa.Call); ok {
-		if g := staticCallee(&call.Call); g != nil && strings.HasSuffix(g.Name(), "encodeFlags") {
-			return "flags"
+		if g := staticCallee(&call.Call); g != nil && g.Signature.Recv() != nil && g.Signature.Params().Len() == 0 && fnPkgPath(g) == pkPackets1 {
+			if b, ok := g.Signature.Results().At(0).Type().Underlying().(*types.Basic); ok && b.Kind() == types.Uint8 {
+				return "flags"
+			}
 		}
 		if b, ok := call.Call.Value.(*ssa.Builtin); ok && b.Name() == "len" {
 			return "len(" + cm.fieldOf(stripConv(call.Call.Args[0])) + ")"
@@ -331,6 +333,9 @@ func (cm *codecModel) describeByte(v ssa.Value, ex *explorer, st *pstate, fr *fr
 	}
 	if f := cm.fieldOf(v); f != "" {
 		return f
+	}
+	if cm.isFlagExpr(v) {
+		return "flags"
 	}
 	return "?" + exprStr(v)
 }
@@ -531,7 +536,134 @@ func (cm *codecModel) describeDecoded(v ssa.Value, ex *explorer, st *pstate, fr 
 }
 
 // ---------------------------------------------------------------------------
-// Flags (structural): masks and shifts in encodeFlags / decodeFlags.
+
+// flagEncoder: the function whose byte-typed OR/AND expressions build the
+// flags octet of tname: the method Pack hands to WriteByte (a receiver method
+// without further parameters returning a byte; today encodeFlags), or Pack
+// itself when the expression is written in place. second result: the value
+// written in place (nil when a method is called).
+func (cm *codecModel) flagEncoder(tname string) (*ssa.Function, ssa.Value) {
+	pack := cm.method(tname, "Pack")
+	if pack == nil {
+		return nil, nil
+	}
+	var fn *ssa.Function
+	var inline ssa.Value
+	allInstrs(pack, func(i ssa.Instruction) {
+		ci, ok := i.(ssa.CallInstruction)
+		if !ok || calleeName(ci.Common()) != "(*bytes.Buffer).WriteByte" || len(ci.Common().Args) < 2 {
+			return
+		}
+		v := stripConv(ci.Common().Args[1])
+		if call, ok := v.(*ssa.Call); ok {
+			if g := staticCallee(&call.Call); g != nil && g.Signature.Recv() != nil && g.Signature.Params().Len() == 0 && fnPkgPath(g) == pkPackets1 && len(call.Call.Args) == 1 && call.Call.Args[0] == ssa.Value(pack.Params[0]) {
+				fn = g
+			}
+			return
+		}
+		if cm.isFlagExpr(v) {
+			fn, inline = pack, v
+		}
+	})
+	return fn, inline
+}
+
+// isFlagExpr: a byte expression built from masks/shifts/ors (not a plain field load).
+func (cm *codecModel) isFlagExpr(v ssa.Value) bool {
+	v = stripConv(v)
+	switch x := v.(type) {
+	case *ssa.BinOp:
+		switch x.Op {
+		case token.OR, token.AND, token.SHL:
+			return true
+		}
+	case *ssa.Phi:
+		for _, e := range x.Edges {
+			if cm.isFlagExpr(e) {
+				return true
+			}
+		}
+	}
+	return false
+}
+
+// flagDecoder: the function that decodes the flags octet of tname and the
+// predicate telling which values are "the flags octet" there: the receiver
+// method Unpack calls with one byte argument buf[k] (today decodeFlags; the
+// byte is its parameter), or Unpack itself when the fields are assigned in
+// place (the byte is any load of buf[k] that is masked with a constant).
+func (cm *codecModel) flagDecoder(tname string) (f *ssa.Function, isByte func(ssa.Value) bool, off int64) {
+	u := cm.method(tname, "Unpack")
+	off = -1
+	if u == nil {
+		return nil, nil, off
+	}
+	allInstrs(u, func(i ssa.Instruction) {
+		ci, ok := i.(ssa.CallInstruction)
+		if !ok || f != nil {
+			return
+		}
+		g := staticCallee(ci.Common())
+		if g == nil || g.Signature.Recv() == nil || fnPkgPath(g) != pkPackets1 || len(ci.Common().Args) != 2 || ci.Common().Args[0] != ssa.Value(u.Params[0]) {
+			return
+		}
+		if b, ok := g.Signature.Params().At(0).Type().Underlying().(*types.Basic); !ok || b.Kind() != types.Uint8 {
+			return
+		}
+		if l, ok := ci.Common().Args[1].(*ssa.UnOp); ok && l.Op == token.MUL {
+			if ia, ok := l.X.(*ssa.IndexAddr); ok {
+				if k, ok := constInt(ia.Index); ok {
+					f, off = g, k
+					bp := g.Params[1]
+					isByte = func(v ssa.Value) bool { return v == ssa.Value(bp) }
+				}
+			}
+		}
+	})
+	if f != nil {
+		return
+	}
+	// in place: loads of buf[k] that are ANDed with a constant
+	offs := map[int64]bool{}
+	allInstrs(u, func(i ssa.Instruction) {
+		b, ok := i.(*ssa.BinOp)
+		if !ok || b.Op != token.AND {
+			return
+		}
+		if _, isC := constInt(b.Y); !isC {
+			return
+		}
+		if l, ok := stripConv(b.X).(*ssa.UnOp); ok && l.Op == token.MUL {
+			if ia, ok := l.X.(*ssa.IndexAddr); ok && len(u.Params) > 1 && ia.X == ssa.Value(u.Params[1]) {
+				if k, ok := constInt(ia.Index); ok {
+					offs[k] = true
+				}
+			}
+		}
+	})
+	if len(offs) != 1 {
+		return nil, nil, -1
+	}
+	for k := range offs {
+		off = k
+	}
+	f = u
+	isByte = func(v ssa.Value) bool {
+		l, ok := v.(*ssa.UnOp)
+		if !ok || l.Op != token.MUL {
+			return false
+		}
+		ia, ok := l.X.(*ssa.IndexAddr)
+		if !ok || ia.X != ssa.Value(u.Params[1]) {
+			return false
+		}
+		k, ok := constInt(ia.Index)
+		return ok && k == off
+	}
+	return
+}
+
+// Flags (structural): masks and shifts of the flags octet (in encodeFlags / decodeFlags or written in place).
 
 type flagSpec struct {
 	Mask, Shift int64
@@ -547,19 +679,63 @@ func (f flagSpec) String() string {
 
 // encodeFlagSpecs analyses encodeFlags: returns field -> spec, or error text.
 func (cm *codecModel) encodeFlagSpecs(tname string) (map[string]flagSpec, string) {
-	f := cm.method(tname, "encodeFlags")
+	f, inline := cm.flagEncoder(tname)
 	if f == nil {
 		return nil, ""
 	}
 	out := map[string]flagSpec{}
 	bad := ""
+	parseTerm := func(term ssa.Value) {
+		a, ok := stripConv(term).(*ssa.BinOp)
+		if !ok || a.Op != token.AND {
+			bad = "unrecognised flag term: " + exprStr(term)
+			return
+		}
+		mask, ok := constInt(a.Y)
+		if !ok {
+			bad = "non-constant mask: " + exprStr(a)
+			return
+		}
+		x := a.X
+		shift := int64(0)
+		if sh, ok := x.(*ssa.BinOp); ok && sh.Op == token.SHL {
+			k, ok := constInt(sh.Y)
+			if !ok {
+				bad = "non-constant shift"
+				return
+			}
+			shift = k
+			x = sh.X
+		}
+		fn := cm.fieldOf(stripConv(x))
+		if fn == "" {
+			bad = "flag term does not load a field: " + exprStr(x)
+			return
+		}
+		out[fn] = flagSpec{Mask: mask, Shift: shift}
+	}
+	// a single term written in place (no OR at all)
+	if inline != nil {
+		if b, ok := stripConv(inline).(*ssa.BinOp); ok && b.Op != token.OR {
+			parseTerm(inline)
+			return out, bad
+		}
+	}
 	// every BinOp OR in the function contributes one term
 	allInstrs(f, func(i ssa.Instruction) {
 		b, ok := i.(*ssa.BinOp)
 		if !ok || b.Op != token.OR {
 			return
 		}
+		if bt, ok := b.Type().Underlying().(*types.Basic); !ok || bt.Kind() != types.Uint8 {
+			return
+		}
 		term := b.Y
+		if _, isTerm := stripConv(b.X).(*ssa.BinOp); isTerm {
+			if xb := stripConv(b.X).(*ssa.BinOp); xb.Op == token.AND {
+				parseTerm(b.X) // a | b written as one expression: the left operand is a term too
+			}
+		}
 		// term forms
 		if k, ok := constInt(term); ok {
 			// b |= mask under a bool condition: find the guard of this block
@@ -619,16 +795,25 @@ func (cm *codecModel) fieldOfBool(v ssa.Value) string {
 
 // decodeFlagSpecs analyses decodeFlags.
 func (cm *codecModel) decodeFlagSpecs(tname string) (map[string]flagSpec, string) {
-	f := cm.method(tname, "decodeFlags")
+	f, isByte, _ := cm.flagDecoder(tname)
 	if f == nil {
 		return nil, ""
 	}
-	if len(f.Params) < 2 {
-		return nil, "decodeFlags has no byte parameter"
-	}
-	bparam := f.Params[1]
+	inPlace := f.Name() == "Unpack"
 	out := map[string]flagSpec{}
 	bad := ""
+	// mentions the flags octet?
+	var mentions func(v ssa.Value, d int) bool
+	mentions = func(v ssa.Value, d int) bool {
+		v = stripConv(v)
+		if isByte(v) {
+			return true
+		}
+		if b, ok := v.(*ssa.BinOp); ok && d < 4 {
+			return mentions(b.X, d+1) || mentions(b.Y, d+1)
+		}
+		return false
+	}
 	spec := func(v ssa.Value) (flagSpec, bool) {
 		v = stripConv(v)
 		b, ok := v.(*ssa.BinOp)
@@ -639,20 +824,20 @@ func (cm *codecModel) decodeFlagSpecs(tname string) (map[string]flagSpec, string
 		case token.SHR:
 			k, ok1 := constInt(b.Y)
 			a, ok2 := stripConv(b.X).(*ssa.BinOp)
-			if ok1 && ok2 && a.Op == token.AND && stripConv(a.X) == bparam {
+			if ok1 && ok2 && a.Op == token.AND && isByte(stripConv(a.X)) {
 				if m, ok := constInt(a.Y); ok {
 					return flagSpec{Mask: m, Shift: k}, true
 				}
 			}
 		case token.AND:
-			if stripConv(b.X) == bparam {
+			if isByte(stripConv(b.X)) {
 				if m, ok := constInt(b.Y); ok {
 					return flagSpec{Mask: m, Shift: 0}, true
 				}
 			}
 		case token.EQL, token.NEQ:
 			a, ok2 := stripConv(b.X).(*ssa.BinOp)
-			if ok2 && a.Op == token.AND && stripConv(a.X) == bparam {
+			if ok2 && a.Op == token.AND && isByte(stripConv(a.X)) {
 				m, ok1 := constInt(a.Y)
 				k, ok3 := constInt(b.Y)
 				if ok1 && ok3 && ((b.Op == token.EQL && k == m) || (b.Op == token.NEQ && k == 0)) {
@@ -670,6 +855,9 @@ func (cm *codecModel) decodeFlagSpecs(tname string) (map[string]flagSpec, string
 				return
 			}
 			fn := fieldName(fa.X.Type(), fa.Field)
+			if inPlace && !mentions(x.Val, 0) {
+				return // another field of the packet, not a flag
+			}
 			s, ok := spec(x.Val)
 			if !ok {
 				bad = "field " + fn + " decoded from an unrecognised expression: " + exprStr(x.Val)
@@ -684,6 +872,9 @@ func (cm *codecModel) decodeFlagSpecs(tname string) (map[string]flagSpec, string
 			// setter: SetDUP(cond)
 			for _, w := range cm.c.setterWrites(g) {
 				if w.ParamIdx >= 0 && w.ParamIdx < len(x.Common().Args) {
+					if inPlace && !mentions(x.Common().Args[w.ParamIdx], 0) {
+						continue
+					}
 					s, ok := spec(x.Common().Args[w.ParamIdx])
 					if !ok {
 						bad = "setter argument not a recognised flag expression: " + exprStr(x.Common().Args[w.ParamIdx])
